@@ -242,7 +242,9 @@ def run(ctx):
             wt = mf.blocks[w[0][0]]['term']
             kn = source_names(mf, t['args'][1])
             wn = source_names(mf, wt['args'][1])
-            C.check(bool(kn & wn), 'C05-PAIR-origins', 'ElementRaw::move_element_full|registered-key-is-rewritten-text',
+            from flow import same_value_locals as _svl
+            shared = _svl(mf, t['args'][1]) & _svl(mf, wt['args'][1])
+            C.check(bool(kn & wn) or bool(shared), 'C05-PAIR-origins', 'ElementRaw::move_element_full|registered-key-is-rewritten-text',
                     'the referrer is registered in the destination under a different string (%s) than the text written into the reference (%s)' % (sorted(kn), sorted(wn)), mf.where(pos),
                     sample={'fn': 'move_element_full', 'obligation': 'add_reference_origin(key) and set_character_data(text) derive from the same variable', 'variable': sorted(kn & wn)})
 
